@@ -648,6 +648,37 @@ run_lm_comparisons(const Plan& p, sim::Result& res, LmProblem& pr, const shared_
         }
       sim::probe("cache_files_reused");
     }
+  // ---- the same list-mode objective function object set up a second time (e.g. for another start image): still the same model
+  if (p.c("lm_resetup", 0))
+    {
+      bool refused = false;
+      try
+        {
+          refused = lobj->set_up(pr.lambda) != Succeeded::yes;
+        }
+      catch (const sim::Violation&)
+        {
+          throw;
+        }
+      catch (const std::exception&)
+        {
+          refused = true;
+        }
+      if (refused)
+        {
+          sim::probe("lm_second_set_up_refused"); // a refusal is loud: not a wrong result
+          return;
+        }
+      for (int s = 0; s < pr.num_subsets; ++s)
+        {
+          g1->fill(0.f);
+          g2->fill(0.f);
+          lobj->compute_sub_gradient_without_penalty(*g1, *pr.lambda, s);
+          pobj->compute_sub_gradient_without_penalty(*g2, *pr.lambda, s);
+          compare_images(img(*g1), img(*g2), 5e-5, "lm_gradient:gradient_after_second_set_up", "list-mode gradient after a second set_up of the same object");
+        }
+      sim::probe("lm_second_set_up_checked");
+    }
 }
 #endif
 
@@ -790,6 +821,7 @@ gen(uint64_t seed, const std::string& tier, long idx)
     p.cfg["ndet"] = 8 * r.range(1, 2);
   if (o.kind == std::string("lm_cache_write_error"))
     p.cfg["cache_size"] = r.range(3, 80);
+  p.cfg["lm_resetup"] = r.chance(0.4);
 #endif
   p.ops.push_back(o);
   return p;
